@@ -504,6 +504,15 @@ YR_API int yr_scanner_scan_mem_blocks(
     FAIL_ON_ERROR(
         yr_get_configuration_uint32(YR_CONFIG_MAX_MATCH_DATA, &max_match_data));
 
+    // If a previous scan was suspended with ERROR_BLOCK_NOT_READY and never
+    // resumed, its matches and notebook are still around. Discard them.
+    if (scanner->matches_notebook != NULL)
+    {
+      _yr_scanner_clean_matches(scanner);
+      yr_notebook_destroy(scanner->matches_notebook);
+      scanner->matches_notebook = NULL;
+    }
+
     result = yr_notebook_create(
         1024 * (sizeof(YR_MATCH) + max_match_data), &scanner->matches_notebook);
 
